@@ -518,7 +518,7 @@ func (g *cssGen) fontFamily() string {
 	n := r.Range(1, 3)
 	var fs []string
 	for i := 0; i < n; i++ {
-		fs = append(fs, r.Pick([]string{"Arial", "\"Times New Roman\"", "'Helvetica Neue'", "Times New Roman", "serif", "sans-serif", "monospace", "\"My  Font\"", "'Font 2'", "\"serif\"", "'A,B'", "-apple-system", "\"\"", "Fira  Sans", "'-x'", "\"a\\\"b\""}))
+		fs = append(fs, r.Pick([]string{"Arial", "\"Times New Roman\"", "'Helvetica Neue'", "Times New Roman", "serif", "sans-serif", "monospace", "\"My  Font\"", "'Font 2'", "\"serif\"", "'A,B'", "-apple-system", "\"\"", "Fira  Sans", "'-x'", "\"a\\\"b\"", "\"Initial\"", "'inherit'", "\"unset\"", "\"revert\"", "'Default'"}))
 	}
 	return strings.Join(fs, r.Pick([]string{",", ", ", " , "}))
 }
